@@ -10,7 +10,7 @@ import opscheck
 from findings import EVIDENCE_DIR
 
 CLAUSES = ["X_CellLocations", "X_FaceLocations", "X_GradFixedBC", "X_FaceCtorScalar", "X_FaceCtorTuple",
-           "X_Utility", "X_Integral", "X_MeshIndex"]
+           "X_Utility", "X_Integral", "X_MeshIndex", "X_BuilderForms"]
 
 
 def run(tier, seed):
